@@ -302,6 +302,14 @@ def check(item, tier):
                 try:
                     perm = Belief(tuple(reversed(rb[0])), tuple(reversed(rb[1])))
                     forms = {'belief_in_reversed_state_order': perm, 'list': list(rb[1]), 'numpy_vector': np.array(rb[1], dtype=float)}
+                    # ... and as the library's own distribution objects
+                    from msdm.core.distributions import DictDistribution as _DD, UniformDistribution as _UD, DeterministicDistribution as _Det
+                    posi = [(x, q_) for x, q_ in zip(rb[0], rb[1]) if q_ > 0]
+                    forms['DictDistribution'] = _DD({x: q_ for x, q_ in posi})
+                    if len(posi) == 1:
+                        forms['DeterministicDistribution'] = _Det(posi[0][0])
+                    elif len({q_ for _, q_ in posi}) == 1:
+                        forms['UniformDistribution'] = _UD([x for x, _ in posi])
                     for fname, fb in forms.items():
                         r.count('transitions')
                         alt = float(res.policy.value(fb))
